@@ -43,6 +43,13 @@ type Bounds struct {
 	Concretize int              `json:"max_concretize"`
 	MaxWallS   int              `json:"max_wall_s"`
 	Encoding   string           `json:"encoding"` // "bv" (default) or "int"
+	// Native: "strict" (default): sampled passing paths must replay natively
+	// with identical event traces and counterexamples must reproduce natively;
+	// "besteffort" (harnesses with real goroutines/timers, where the native
+	// schedule is not controlled): mismatches are recorded, not fatal, and an
+	// engine counterexample is reported even if the native run does not
+	// reproduce it; "off": no native runs.
+	Native string `json:"native,omitempty"`
 }
 
 type PropSpec struct {
